@@ -511,7 +511,7 @@ func main() {
 		"lenient_alternative_followed":                                e.altsUsed,
 		"pipeline_layer_transitions":                                  pipeTransitions,
 		"pipeline_layer_per_language":                                 e.pipe,
-		"pipeline_layer":                                              "every operation of the seed's alphabet as final pass of codegen.Pipeline.ContextForLanguage for no language and the 7 output languages (thorough: also pairs, reduced alphabet first); the last final pass is judged by its model applied to cog's own result of the chain without it",
+		"pipeline_layer":                                              "every operation of the seed's alphabet as final pass of codegen.Pipeline.ContextForLanguage for no language and the 7 output languages (thorough: also all pairs over the reduced alphabet, for the languages whose passes change the seed); the last final pass is judged by its model applied to cog's own result of the chain without it",
 		"how_run":                                                     "each operation is YAML text loaded by internal/yaml.CompilerLoader (library passes: cog.PrefixObjectsNames / cog.AppendCommentToObjects); a sequence is run as one compiler.Passes{...}.Process(seed) call, as cog does",
 	}, []string{
 		"states are deduplicated by refl.Canon of the ast.Schemas (PassesTrail included); a state is expanded through the first (shortest, alphabet-ordered) sequence that reaches it",
